@@ -10,7 +10,7 @@ PROP = "C05"
 PROOF_MODULES = ["Abverif.Proofs.Lemmas.WsFrame", "Abverif.Proofs.Lemmas.WsExt", "Abverif.Proofs.C05"]
 MANIFEST_ENTRY = {
     "technique": 'Lean 4 invariants by induction over arbitrary operation histories (Ext relation over every engine function) + history correspondence + CloseSpec trace oracle',
-    "text": 'Proved for every configuration and every finite history of API calls, reads, clock advances and connection loss on the model: the state only moves forward (state_monotone); onClose is delivered exactly once, exactly when the transport is gone, and by no other event (onClose_at_most_once, onClose_only_at_lost); after loss the state is CLOSED. The remaining clauses (one close frame, legal code/reason, clean iff both directions, bounded closing) are decided by the CloseSpec trace oracle on real Twisted/asyncio objects over generated histories, with the model compared after every event; three defects found this way were repaired in /repo.',
+    "text": 'Proved for every configuration and every finite history of API calls, reads, clock advances and connection loss on the model (invariants by induction, using the Ext relation proved for every one of the ~100 engine functions): the state only moves forward (state_monotone); onClose is delivered exactly once, exactly when the transport is gone, and by no other event (onClose_at_most_once, onClose_only_at_lost); after loss the state is CLOSED (lost_closed) and every later operation - late data, timers, API calls - at most raises, nothing is delivered or written (silent_after_onClose, dead_forever); at most one close frame is ever sent, then the connection is CLOSING or CLOSED, and its status code is one RFC 6455 7.4 allows on the wire and its reason at most 123 octets, whether it comes from sendClose, a failure or the echoed peer code (one_close_frame, close_frame_on_wire, closePayload_length); while CLOSING a drop timer is armed unless its timeout is configured off (closing_has_timer; the deadline itself is C17 close_timeout_drops / server_drop_timeout_drops). With recv_refines_judge (C02) a legal peer close frame is taken in with the peer code and reason and the close is clean. The clauses "no data frame follows the close frame", "clean only if close frames travelled in both directions" and "closed within the timeouts" as whole-history statements are decided by the CloseSpec trace oracle on real Twisted/asyncio objects over generated histories, with the model compared after every event; four defects found this way were repaired in /repo (9d200e16, 5b48a5ce, a6d81347, 25c063cd).',
     "note": 'Trusted: Lean kernel; model tied by differential execution; framework contract: connectionLost at most once and no input after it; OS socket teardown not modelled.',
 }
 TRUSTED = [
